@@ -36,10 +36,11 @@ struct Spec {
     attested: Option<([u8; 16], usize)>,
     ext: Ext,
     /// after the extension setter: 0 nothing, 1 the make setter with None, 2 the assertion setter with
-    /// None, 3 the make setter with empty outputs (setter calls that have nothing to add)
+    /// None, 3 the make setter with empty outputs (setter calls that have nothing to add), 4 the same
+    /// setter once more with the same content
     followup: u8,
     /// order of the attested key's parameters: 0 as the builder emits them (crv, x, y), 1 reversed,
-    /// 2 rotated - a COSE key is a map, an imported key may list its members in any order
+    /// 2 rotated - a COSE key is a map, an imported key may list its members in any order; 3 with a kid, 4 with key_ops, 5 with a base IV
     key_order: u8,
 }
 
@@ -82,8 +83,8 @@ fn gen(seed: u64, idx: u64) -> Spec {
             3 => Ext::Get(rng.bytes(rng.clone().range(0, 80))),
             _ => Ext::None,
         },
-        followup: if rng.chance(1, 4) { rng.range(1, 3) as u8 } else { 0 },
-        key_order: if rng.chance(1, 3) { rng.range(1, 2) as u8 } else { 0 },
+        followup: if rng.chance(1, 3) { rng.range(1, 4) as u8 } else { 0 },
+        key_order: if rng.chance(1, 3) { rng.range(1, 5) as u8 } else { 0 },
     }
 }
 
@@ -118,6 +119,12 @@ fn build(s: &Spec, idx: u64) -> Result<Built, String> {
         match s.key_order {
             1 => key.params.reverse(),
             2 => key.params.rotate_left(1),
+            // optional COSE_Key members a hand-built or imported key may carry
+            3 => key.key_id = vec![0x6b, 0x69, 0x64],
+            4 => {
+                key.key_ops.insert(coset::KeyOperation::Assigned(iana::KeyOperation::Verify));
+            }
+            5 => key.base_iv = vec![7; 8],
             _ => {}
         }
         key_bytes = key.clone().to_vec().map_err(|e| format!("{e:?}"))?;
@@ -145,6 +152,15 @@ fn build(s: &Spec, idx: u64) -> Result<Built, String> {
             ad = ad.set_assertion_extensions(Some(get_assertion::SignedExtensionOutputs { hmac_secret: Some(Bytes::from(v.clone())) })).map_err(|e| format!("{e:?}"))?;
             ext_bytes = Some(oracle::cbor_ser(&Cbor::Map(vec![(text("hmac-secret"), Cbor::Bytes(v.clone()))])));
         }
+    }
+    if s.followup == 4 {
+        ad = match &s.ext {
+            Ext::None => ad,
+            Ext::MakeBool(b) => ad.set_make_credential_extensions(Some(make_credential::SignedExtensionOutputs { hmac_secret: Some(*b), hmac_secret_mc: None })).map_err(|e| format!("{e:?}"))?,
+            Ext::MakeMc(v) => ad.set_make_credential_extensions(Some(make_credential::SignedExtensionOutputs { hmac_secret: None, hmac_secret_mc: Some(Bytes::from(v.clone())) })).map_err(|e| format!("{e:?}"))?,
+            Ext::MakeBoth(b, v) => ad.set_make_credential_extensions(Some(make_credential::SignedExtensionOutputs { hmac_secret: Some(*b), hmac_secret_mc: Some(Bytes::from(v.clone())) })).map_err(|e| format!("{e:?}"))?,
+            Ext::Get(v) => ad.set_assertion_extensions(Some(get_assertion::SignedExtensionOutputs { hmac_secret: Some(Bytes::from(v.clone())) })).map_err(|e| format!("{e:?}"))?,
+        };
     }
     ad = match s.followup {
         1 => ad.set_make_credential_extensions(None).map_err(|e| format!("{e:?}"))?,
